@@ -62,6 +62,8 @@ impl<T> Sender<T> {
             if let Err(PushError::Full(pending)) = self.tx.push(pending) {
                 self.pending_messages.push_front(pending);
                 self.pending_messages.push_back(value);
+                #[cfg(fastrace_verif)]
+                crate::verif::point(crate::verif::Point::Parked);
                 return;
             }
         }
